@@ -39,3 +39,5 @@ import p_streams  # noqa: E402,F401
 import p_devices  # noqa: E402,F401
 import p_pure  # noqa: E402,F401
 import p_profile  # noqa: E402,F401
+import p_settable  # noqa: E402,F401
+import p_wrappers  # noqa: E402,F401
